@@ -4,13 +4,21 @@ C07 — The new-header stream lets a subscriber reconstruct the best chain exact
 Proved here, for every repository state: a refused submission, an "already known" answer and every
 maintenance operation announce nothing; extending the best branch announces exactly that one
 header, and applying it to a chain ending in its parent appends it; extending or starting a side
-branch that does not become the best announces nothing. The reorganisation case ("all headers of
-the new best chain above the fork point, lowest first") depends on `IntersectHash` returning the
-true fork point and is carried by the correspondence + monitor (the monitor replays `applyStream`
-on the implementation's stream after every submission) — `_partial` as a theorem.
+branch that does not become the best announces nothing.
+
+For every state reached by submissions from genesis (`StreamWF`: the link, identity, ownership,
+root-base and fork-below-tip invariants, all preserved by `ProcessHeader`): `IntersectHash` returns
+a header common to both chains, a reorganisation announces exactly the headers of the new best
+chain above it, lowest first, as a linked chain (`C07_reorg_shape`); applying ANY submission's
+announcement to the best chain before it gives the best chain after it (`C07_stream_step`); and
+over ANY finite history a subscriber that applies everything announced holds exactly the chain the
+repository reports (`C07_stream_reconstructs`). Histories with Clean/Save/Load/marking, and the
+internal branch-update error, are carried by the correspondence + monitor (the monitor replays
+`applyStream` on the implementation's stream after every submission) — `_partial` there.
 -/
 import BRV.Proofs.RepoBasics
 import BRV.Spec.Stream
+import BRV.Proofs.RepoExample
 
 namespace BRV.Repo
 
@@ -91,6 +99,55 @@ theorem C07_auto_clean_keeps_event (r : Repo) (h : Hdr) (ph : Int) (lst : HData)
     block `ProcessHeader`; out of the property's scope, recorded as a limit. -/
 theorem C07_channel_capacity : Facts.newHeadersCap = 10000 := by decide
 
+/-! ### reorganisations and whole histories -/
+
+/-- **C07 (on a reorganisation: all headers of the new best chain above the fork point, lowest
+    first).** The previous and the new best chain share a prefix ending in the fork point `p`; the
+    new chain continues with exactly the announced headers; these are a non-empty chain linked by
+    previous-block hash starting at `p`; no two headers of the new chain share a hash. -/
+theorem C07_reorg_shape (r : Repo) (hs : StreamWF r) (r2 : Repo) (evs : List Hdr)
+    (h : reselect r = .ok (r2, true, evs))
+    (cOld cNew : List Hdr) (hold : IsChain r.arena r.longest cOld) (hnew : IsChain r.arena r2.longest cNew) :
+    ∃ (pre : List Hdr) (p : Hdr) (rest : List Hdr), cOld = pre ++ [p] ++ rest ∧ cNew = pre ++ [p] ++ evs ∧
+      Spec.Linked p evs ∧ ((pre ++ [p] ++ evs).map (·.id)).Nodup ∧ evs ≠ [] :=
+  reselect_reorg_shape r hs.chain r2 evs hs.below h cOld cNew hold hnew
+
+/-- **C07 (headers that never enter the best chain are never announced, reorganisation case)**:
+    every header of a branch update is a header of the new best chain. -/
+theorem C07_reorg_announced_in_chain (r : Repo) (hs : StreamWF r) (r2 : Repo) (evs : List Hdr)
+    (h : reselect r = .ok (r2, true, evs))
+    (cOld cNew : List Hdr) (hold : IsChain r.arena r.longest cOld) (hnew : IsChain r.arena r2.longest cNew) :
+    ∀ e ∈ evs, e ∈ cNew := by
+  obtain ⟨pre, p, rest, _, hn, _⟩ := C07_reorg_shape r hs r2 evs h cOld cNew hold hnew
+  intro e he
+  rw [hn]
+  exact List.mem_append_right _ he
+
+/-- **C07 (applying the stream yields the chain the repository reports after the submission).**
+    For ANY submitted header and any outcome other than the internal branch-update error. -/
+theorem C07_stream_step (r : Repo) (h : Hdr) (ok : Bool) (hs : StreamWF r)
+    (hnc : ∀ pb ph lst, precheck r h ok = .inr (pb, ph, lst) →
+      Int.tmod ((r.br pb).height + 1) (Facts.autoCleanModulus : Int) ≠ 0)
+    (hv : ∀ e, (processHeader r h ok).2.verdict ≠ .err e)
+    (cOld cNew : List Hdr) (hold : IsChain r.arena r.longest cOld)
+    (hnew : IsChain (processHeader r h ok).1.arena (processHeader r h ok).1.longest cNew) :
+    Spec.applyStream cOld (processHeader r h ok).2.events = cNew :=
+  stream_step r h ok hs hnc hv cOld cNew hold hnew
+
+/-- **C07 (submission histories).** From a well-formed state (e.g. genesis only), after ANY finite
+    history of submissions — extensions, forks, reorganisations to child, parent, sibling and
+    cousin branches of any depth, reorganisations on the first header of a new branch, duplicates,
+    refusals — the subscriber's chain (the initial best chain with everything announced applied, in
+    order) is exactly the best chain of the repository. -/
+theorem C07_stream_reconstructs (r : Repo) (hs : List (Hdr × Bool)) (hwf : StreamWF r)
+    (hlv : r.longest < r.arena.length) (hq : StreamQuiet r hs) (c0 : List Hdr) (h0 : IsChain r.arena r.longest c0) :
+    IsChain (submitAll r hs).arena (submitAll r hs).longest (Spec.applyStream c0 (streamOf r hs)) :=
+  stream_history r hs hwf hlv hq c0 h0
+
+/-- the invariants hold in every state reached by submissions. -/
+theorem C07_wf_submissions (r : Repo) (hs : List (Hdr × Bool)) (hwf : StreamWF r) (hq : NoAutoClean r hs) :
+    StreamWF (submitAll r hs) := streamWF_submitAll r hs hwf hq
+
 /-! ### non-vacuity -/
 
 example : Spec.applyStream [{ id := 0, prev := 9, bits := 1, time := 1 }] [{ id := 1, prev := 0, bits := 1, time := 2 }]
@@ -98,5 +155,38 @@ example : Spec.applyStream [{ id := 0, prev := 9, bits := 1, time := 1 }] [{ id 
 example : Spec.applyStream [{ id := 0, prev := 9, bits := 1, time := 1 }, { id := 1, prev := 0, bits := 1, time := 2 }]
     [{ id := 5, prev := 0, bits := 1, time := 2 }, { id := 6, prev := 5, bits := 1, time := 3 }]
     = [{ id := 0, prev := 9, bits := 1, time := 1 }, { id := 5, prev := 0, bits := 1, time := 2 }, { id := 6, prev := 5, bits := 1, time := 3 }] := by decide
+
+/-- the genesis-only repository meets the hypotheses of the history theorems, with its one-header chain. -/
+example : StreamWF genesisRepo ∧ genesisRepo.longest < genesisRepo.arena.length ∧
+    IsChain genesisRepo.arena genesisRepo.longest [{ id := 0, prev := 99, bits := 0x1d00ffff, time := 1 }] :=
+  ⟨genesisRepo_streamWF, by decide, genesisRepo_chain⟩
+
+/-- a concrete history with an extension followed by a reorganisation on the first header of a new
+    branch: both headers are announced, nothing triggers the clean or the internal error. -/
+def exH1 : Hdr := { id := 1, prev := 0, bits := 0x1d00ffff, time := 2 }
+def exH2 : Hdr := { id := 2, prev := 0, bits := 0x1c00ffff, time := 2 }
+
+example : streamOf genesisRepo [(exH1, true), (exH2, true)] = [exH1, exH2] := by decide
+
+example : StreamQuiet genesisRepo [(exH1, true), (exH2, true)] := by
+  have v1 : (processHeader genesisRepo exH1 true).2.verdict = .ok := by decide
+  have v2 : (processHeader (processHeader genesisRepo exH1 true).1 exH2 true).2.verdict = .ok := by decide
+  refine ⟨?_, ?_, ?_, ?_, trivial⟩
+  · intro e he; rw [v1] at he; cases he
+  · intro pb ph lst hp
+    have : precheck genesisRepo exH1 true
+        = .inr (0, 0, { hdr := { id := 0, prev := 99, bits := 0x1d00ffff, time := 1 }, work := 4295032833 }) := by decide
+    rw [this] at hp
+    simp only [Sum.inr.injEq, Prod.mk.injEq] at hp
+    obtain ⟨rfl, rfl, rfl⟩ := hp
+    decide
+  · intro e he; rw [v2] at he; cases he
+  · intro pb ph lst hp
+    have : precheck (processHeader genesisRepo exH1 true).1 exH2 true
+        = .inr (0, 0, { hdr := { id := 1, prev := 0, bits := 0x1d00ffff, time := 2 }, work := 8590065666 }) := by decide
+    rw [this] at hp
+    simp only [Sum.inr.injEq, Prod.mk.injEq] at hp
+    obtain ⟨rfl, rfl, rfl⟩ := hp
+    decide
 
 end BRV.Repo
